@@ -59,6 +59,9 @@ inductive Obs where
   | ready (o : ReadyObs)
   | health (o : HealthObs)
   | names (ns : List String)
+  /-- `Finish(err)` racing with requests: the answers to the /ready requests issued
+      while the call was in flight, and the answer to the one issued after it returned -/
+  | race (mids : List ReadyObs) (after : ReadyObs)
   | other
 
 /-- what the registered checks currently answer, in registration order -/
@@ -76,7 +79,14 @@ def holdsOn : St → List (Op × Obs) → Bool
      | .ready, .ready o => readyOK (answers s.ready) o
      | .health, .health o => healthOK (answers s.health) o
      | .names, .names ns => ns == (answers s.ready).map (·.name)
-     | .ready, _ | .health, _ | .names, _ => false
+     -- a request that overlaps `Finish(err)` may see the startup gate as it was before or
+     -- as it is after the call — a gate that was not ready before stays not ready
+     -- throughout (both states fail), so no 200 may slip through; after the call: the new state
+     | .finishRace _ _ _, .race mids after =>
+       let s' := (s.apply op).getD s
+       mids.all (fun o => readyOK (answers s.ready) o || readyOK (answers s'.ready) o) &&
+       readyOK (answers s'.ready) after
+     | .ready, _ | .health, _ | .names, _ | .finishRace _ _ _, _ => false
      | _, _ => true) && holdsOn ((s.apply op).getD s) rest
 
 /-! ### concurrent histories -/
